@@ -98,7 +98,7 @@ theorem offset_keeps_order (cuts : Nat → Cut) (n i : Nat) (rows : List R) :
     ascending `for … range` with one assignment; REGENERATED from View.Offset on every run -/
 theorem gen_offset_shift_is_ascending_loop :
     Gen.offsetShift = ["newSet := view.RecordSet[view.offset:]", "view.RecordSet = view.RecordSet[:len(newSet)]",
-                       "for i := range newSet { view.RecordSet[i] = newSet[i] }"] := by decide
+                       "for i := range newSet { view.RecordSet[i] = newSet[i] }"] := by rfl
 
 /-- ONE worker, ascending: the in-place writes `a[i] := a[i + off]` leave exactly `drop off` — the OFFSET stage -/
 theorem shift_sequential_spec {α : Type} (off : Nat) (a : List α) :
